@@ -526,6 +526,118 @@ def gen_validate_case(rng, cid, ns="", ftypes=None, p_validate=0.85, prefer_vali
 
 
 # ------------------------------------------------------------------------------------------------
+# order-sensitive constraint lists (stream `ordered`).  `validate=c1 c2 c3` hands the validator the constraints in the order the
+# tag lists them, and the order MEANS something: everything after `dive` applies to the elements, `omitempty` ends the checks of a
+# zero value only where it stands.  The lists below are not in lexical order (a tree that re-orders the arguments - e.g. while
+# printing the property under a debug log level - changes the verdict), the values are chosen so that for about half of the cases
+# the verdict of the written order differs from the verdict of the sorted order (the driver reports that as a statistic), and the
+# value always comes through ${...} and / or #{...}, so that every earlier stage has handled (and logged) the property before
+# the validate processor reads its arguments.  The model's verdict comes from where it always comes from: the driver's reference
+# validator on the final field value with the constraints as the generator wrote them.
+
+ORD_CONS = {
+    "int": ["omitempty gte=10", "omitempty gt=5 lt=9", "omitempty min=3", "omitempty ne=0", "omitempty eq=3", "required min=2",
+            "required gte=1 lte=10"],
+    "float": ["omitempty gte=10", "omitempty gt=0.5", "required gt=1"],
+    "string": ["omitempty min=3", "omitempty len=4", "omitempty email", "omitempty eq=abc", "omitempty alpha min=2", "required min=2"],
+    "bool": ["omitempty eq=true", "required eq=true"],
+    "ints": ["max=2 dive min=3", "min=2 dive max=3", "min=1 dive min=2", "required dive gt=0", "omitempty min=2 dive max=3",
+             "max=3 dive required", "min=1 max=3 dive gte=2 lte=4"],
+    "strs": ["max=2 dive min=3", "min=2 dive max=3", "min=1 dive min=2", "omitempty min=2 dive max=3", "max=3 dive required",
+             "required dive alpha"],
+}
+ORD_VALUES = {
+    "int": [0, 0, 0, 3, 5, 10, 12],
+    "float": [0, 0, 5, 25, 100],           # tenths
+    "string": ["", "", "ab", "abc", "abcd", "a@b.co"],
+    "bool": [False, False, True],
+    "ints": [[3, 4], [3, 4], [1, 2], [1, 2], [], [5, 5, 5], [1, 2, 3], [3], [0, 1], [2, 4]],
+    "strs": [["abcd", "efgh"], ["abcd", "efgh"], ["a", "bc"], ["a", "bc"], [], ["abc", "d"], ["a", "b", "c"], ["ab", "cd"], ["", "x"]],
+}
+
+
+def gen_ordered_case(rng, cid, ftype=None, cons=None, val=None, route=None, optional=None):
+    ftype = ftype or rng.choice(["int", "int", "string", "string", "bool", "float", "ints", "ints", "ints", "strs", "strs", "strs"])
+    cons = cons or rng.choice(ORD_CONS[ftype])
+    if val is None:
+        val = rng.choice(ORD_VALUES[ftype])
+    k = "k%d" % (cid % 7)
+    tree, u = {}, None
+    routes = {"int": ["placeholder", "expression", "expression_of_two", "default"], "float": ["placeholder"],
+              "string": ["placeholder", "expression", "default"], "bool": ["placeholder", "expression"],
+              "ints": ["placeholder", "default", "expression"], "strs": ["placeholder", "default", "expression"]}[ftype]
+    route = route or rng.choice(routes)
+    if ftype == "string" and val == "" and route == "expression":
+        route = "placeholder"                      # an expression whose result is '' is known finding KF-C18b: not this class
+    if ftype == "float":
+        tree[k] = P.norm_dec(val, -1)
+        txt = lambda: P.dec_text(val, -1)
+    elif ftype in ("ints", "strs"):
+        tree[k] = list(val)
+        txt = lambda: "[" + ",".join(str(x) for x in val) + "]"
+    else:
+        tree[k] = val
+        txt = lambda: val_text(val)
+    if route == "placeholder":
+        text = "${%s}" % k
+    elif route == "default":                       # the key is absent, the value is the placeholder's default
+        tree = {}
+        text = "${nope.%s:%s}" % (k, txt())
+    elif route == "expression_of_two":             # int only
+        other = rng.choice([0, 1, 2])
+        tree["o"] = other
+        text = "#{${%s} + ${o} - %d}" % (k, other)
+        u = "%d + %d - %d" % (val, other, other)
+    elif ftype == "int":
+        text, u = rng.choice([("#{${%s} + 0}" % k, "%d + 0" % val), ("#{${%s}}" % k, "%d" % val),
+                              ("#{${%s} * 1}" % k, "%d * 1" % val)])
+    elif ftype == "string":
+        text, u = "#{'${%s}' + ''}" % k, "'%s' + ''" % val
+    elif ftype == "bool":
+        text, u = "#{${%s} && true}" % k, "%s && true" % val_text(val)
+    elif ftype == "ints":                          # a list built by the expression, elements computed from a placeholder
+        tree = {"a": 2}
+        items = [("${a} + %d" % (x - 2), "2 + %d" % (x - 2)) if x >= 2 and rng.random() < 0.6 else (str(x), str(x)) for x in val]
+        text, u = "#{[%s]}" % ", ".join(i[0] for i in items), "[%s]" % ", ".join(i[1] for i in items)
+    else:                                          # strs
+        tree = {"s": "dev"}
+        text = u = "[%s]" % ", ".join("'%s'" % x for x in val)
+        text = "#{%s}" % text
+    if optional is None:
+        optional = rng.random() < (0.5 if val in ("", []) else 0.15)
+    text += ",validate=" + cons + (",required=false" if optional else "")
+    return {"id": cid, "stream": "ordered", "config": P.cfg_json(tree), "tree": tree, "tagkey": "value", "tagtext": hx(text),
+            "ftype": ftype, "constraints": cons, "hasvalidate": True, "expr": u,
+            "oc": {"route": route, "cons": cons, "zero_value": val in (0, "", False, [])}}
+
+
+def corpus_ordered():
+    """fixed witnesses of the class gen_ordered_case draws from; each runs under the quiet and under the formatting logger"""
+    import random
+    r = random.Random(18)
+    out = []
+    for ftype, cons, val, route in (("ints", "max=2 dive min=3", [3, 4], "placeholder"),
+                                    ("ints", "max=2 dive min=3", [3, 4], "expression"),
+                                    ("ints", "min=2 dive max=3", [1, 2], "default"),
+                                    ("ints", "min=1 dive min=2", [], "placeholder"),
+                                    ("strs", "max=2 dive min=3", ["abcd", "efgh"], "placeholder"),
+                                    ("strs", "min=2 dive max=3", ["a", "bc"], "expression"),
+                                    ("int", "omitempty gte=10", 0, "placeholder"),
+                                    ("int", "omitempty gte=10", 0, "expression_of_two"),
+                                    ("int", "omitempty gte=10", 5, "expression"),
+                                    ("int", "required min=2", 3, "expression"),
+                                    ("string", "omitempty min=3", "", "placeholder"),
+                                    ("string", "omitempty min=3", "ab", "expression"),
+                                    ("bool", "omitempty eq=true", False, "expression"),
+                                    ("float", "omitempty gte=10", 0, "placeholder")):
+        for verbose in (True, False):
+            c = gen_ordered_case(r, len(out), ftype, cons, val, route, optional=(val in ("", [])))
+            c["verbose"] = verbose
+            out.append(c)
+    return out
+
+
+# ------------------------------------------------------------------------------------------------
 # struct-valued validation targets (stream `vstruct`).  The field's Go type is built by the driver from a shape the generator
 # writes (ftype "dyn"): structs whose fields are scalars (with the scalar constraints of the stream `validate`) and STRUCT-VALUED
 # targets - a nested non-pointer struct, a pointer to a struct, a slice / map of structs (or of pointers to structs) - tagged
@@ -1051,10 +1163,31 @@ def evaluate(ctx, binp, cases, tag):
     probe_id = max([c["id"] for c in cases] + [0]) + 1
     send.append({"id": probe_id, "config": P.cfg_json({"k": P.norm_dec(1, 6)}), "tagkey": "value", "tagtext": hx("${k}"),
                  "ftype": "string", "constraints": "", "hasvalidate": False})
-    rc, res, raw = vlib.run_json(binp, {"cases": send, "timeout_ms": 10000}, timeout=3000)
-    if res is None:
-        raise vlib.GoBuildError("./cmd/c18 (run %s)" % tag, raw[-3000:])
-    outs = {o["id"]: o for o in res["outs"]}
+    # cases marked `verbose` run in a driver process of their own, under the logger that really formats every message (as under a
+    # debug / trace log level): two invocations, one result
+    loud = {c["id"] for c in cases if c.get("verbose")}
+
+    def drive(verbose):
+        part = [d for d in send if (d["id"] in loud) == verbose]
+        if not part:
+            return None
+        doc = {"cases": part, "timeout_ms": 10000}
+        if verbose:
+            doc["verbose"] = True
+        rc, r1, raw = vlib.run_json(binp, doc, timeout=3000)
+        if r1 is None:
+            raise vlib.GoBuildError("./cmd/c18 (run %s)" % tag, raw[-3000:])
+        if bool(r1.get("verbose")) != verbose:
+            raise vlib.GoBuildError("./cmd/c18 (run %s)" % tag, "the driver ran with verbose=%r, asked for %r" % (r1.get("verbose"), verbose))
+        return r1
+
+    from concurrent.futures import ThreadPoolExecutor
+    with ThreadPoolExecutor(max_workers=2) as ex:
+        parts = list(ex.map(drive, (False, True)))
+    res, outs = parts[0], {}
+    for r1 in parts:
+        if r1:
+            outs.update({o["id"]: o for o in r1["outs"]})
     po = outs.pop(probe_id, None) or {}
     splice = unhx(po.get("q", "")).decode("utf-8", "replace") if po.get("qseen") else "<outcome %s>" % po.get("outcome")
     if splice not in SPLICE_VARIANTS:
@@ -1296,10 +1429,40 @@ def corpus_structured():
     return cs
 
 
+def verbose_share(c):
+    """which cases run under the formatting logger: 3 in 5 of the stream `ordered`, 2 in 5 of every other stream (by id, so that a
+    case keeps its mode when the generators change)"""
+    return (c["id"] * 7919) % 5 < (3 if c.get("stream") == "ordered" else 2)
+
+
+def ordered_distribution(cases, by_id):
+    st = {"cases": 0, "under_formatting_logger": 0, "verdict_depends_on_constraint_order": 0,
+          "verdict_depends_on_order_and_formatting_logger": 0, "by_route": {}, "by_field_type": {}, "by_constraints": {},
+          "order_dependent_by_constraints": {}, "by_outcome": {}, "zero_valued": 0}
+    for c in cases:
+        oc = c.get("oc")
+        if not oc:
+            continue
+        o = by_id.get(c["id"], {}).get("observed", {})
+        st["cases"] += 1
+        st["under_formatting_logger"] += bool(c.get("verbose"))
+        st["zero_valued"] += bool(oc["zero_value"])
+        dep = o.get("bound") and o.get("verdict") is not None and o.get("verdict") != o.get("verdict_sorted")
+        st["verdict_depends_on_constraint_order"] += bool(dep)
+        st["verdict_depends_on_order_and_formatting_logger"] += bool(dep and c.get("verbose"))
+        for key, val in (("by_route", oc["route"]), ("by_field_type", c["ftype"]), ("by_constraints", oc["cons"]),
+                         ("by_outcome", o.get("outcome"))):
+            st[key][val] = st[key].get(val, 0) + 1
+        if dep:
+            st["order_dependent_by_constraints"][oc["cons"]] = st["order_dependent_by_constraints"].get(oc["cons"], 0) + 1
+    st["distinct_cases"] = len({vlib.stable_hash([c["config"], c["tagtext"], c["ftype"], c.get("verbose")]) for c in cases if c.get("oc")})
+    return st
+
+
 def run(ctx):
     static_ok = vlib.static_obligations(ctx)
     rng = ctx.rng
-    cases = [dict(c, id=i + 1) for i, c in enumerate(corpus() + corpus_structured())]
+    cases = [dict(c, id=i + 1) for i, c in enumerate(corpus() + corpus_structured() + corpus_ordered())]
     if ctx.replay:
         r = json.load(open(ctx.replay))
         rc = r.get("case", {}).get("case")
@@ -1308,7 +1471,10 @@ def run(ctx):
     else:
         n_expr, n_mp, n_mixed, n_val, n_vs, n_multi, n_ph = ((900, 600, 200, 800, 700, 600, 500) if ctx.quick() else
                                                             (8000, 5000, 2000, 6000, 6000, 5000, 1500))
+        n_ord = 500 if ctx.quick() else 4000
         cid = len(cases) + 1
+        for _ in range(n_ord):
+            cases.append(gen_ordered_case(rng, cid)); cid += 1
         for _ in range(n_expr):
             cases.append(gen_expr_case(rng, cid)); cid += 1
         for _ in range(n_mp):
@@ -1326,6 +1492,8 @@ def run(ctx):
     for c in cases:
         if c.get("holder"):
             c["holder"]["key"] = "H%d" % c["id"]
+        if "verbose" not in c:
+            c["verbose"] = verbose_share(c)
     binp = build_driver(ctx, cases, "main")
     by_id, M, V, cnt, res, facts = evaluate(ctx, binp, cases, "main")
     facts_ok = facts_obligation(ctx, res)
@@ -1377,6 +1545,10 @@ def run(ctx):
                 more.append(gen_multi_case(r2, i))
             for i in range(2001, 2301):
                 more.append(gen_pholder_case(r2, i))
+            for i in range(2301, 2701):
+                more.append(gen_ordered_case(r2, i))
+            for c in more:
+                c["verbose"] = verbose_share(c)
             b2, M2, V2, _, _, _ = evaluate(ctx, build_driver(ctx, more, "widen%d" % extra), more, "widen%d" % extra)
             for i in V2:
                 d = b2[i]
@@ -1459,12 +1631,24 @@ def run(ctx):
                 holder_stats["cases"], holder_stats["distinct_cases"], json.dumps(holder_stats["cases_by_holder_kind"], sort_keys=True),
                 holder_stats["cases_bound_value_violates"], holder_stats["violating_startup_failed"],
                 holder_stats["violating_started_in_class_KF-C05a"], holder_stats["violating_started_outside_the_class"]))
+    ord_stats = ordered_distribution(cases, by_id)
+    loud_stats = {"cases_under_formatting_logger": sum(1 for c in cases if c.get("verbose")), "by_stream": {}}
+    for c in cases:
+        if c.get("verbose"):
+            loud_stats["by_stream"][c.get("stream", "")] = loud_stats["by_stream"].get(c.get("stream", ""), 0) + 1
+    ctx.log("formatting logger (debug/trace arguments really evaluated): %d of %d cases %s" % (
+        loud_stats["cases_under_formatting_logger"], len(cases), json.dumps(loud_stats["by_stream"], sort_keys=True)))
+    ctx.log("order-sensitive constraint lists through ${} / #{}: %d cases (%d distinct), %d under the formatting logger; the verdict "
+            "depends on the order of the constraints in %d (%d of them under the formatting logger) %s" % (
+                ord_stats["cases"], ord_stats["distinct_cases"], ord_stats["under_formatting_logger"],
+                ord_stats["verdict_depends_on_constraint_order"], ord_stats["verdict_depends_on_order_and_formatting_logger"],
+                json.dumps(ord_stats["by_route"], sort_keys=True)))
     for d in by_id.values():
         oc = d["observed"].get("outcome")
         outcomes[oc] = outcomes.get(oc, 0) + 1
 
     def counts_as_distinct(c):
-        if c.get("stream") in ("validate", "vstruct", "multi", "pholder"):
+        if c.get("stream") in ("validate", "vstruct", "multi", "pholder", "ordered"):
             return True
         return any(f.get("expr") is not None and "${" in unhx(f["tagtext"]).decode("latin1") for f in fields_of(c))
 
@@ -1477,6 +1661,7 @@ def run(ctx):
     samples += [by_id[i] for i in sorted(by_id) if by_id[i]["case"].get("stream") == "vstruct"][:3]
     samples += [by_id[i] for i in sorted(by_id) if by_id[i]["case"].get("stream") == "multi"][:2]
     samples += [by_id[i] for i in sorted(by_id) if by_id[i]["case"].get("stream") == "pholder"][:3]
+    samples += [by_id[i] for i in sorted(by_id) if by_id[i]["case"].get("stream") == "ordered"][:3]
     cov = {
         "evaluations": cnt["evals"],
         "distinct_nontrivial": min(cnt["nt"], distinct),
@@ -1498,14 +1683,21 @@ def run(ctx):
                 "Ordered / Priority-ordered with Orders around those of the built-in processors, lazy (alone or wired into a plain component) "
                 "or not, named before / after the built-in processors' names (stream pholder): the model applies the processors that the "
                 "sorted sequence (class / Order() read from the holder value; cross-checked against the factory's sequence read from the "
-                "running code) places before the holder, the oracle is the property. non-trivial = (a) with at least one placeholder inside the expression, or a case with a validate "
+                "running code) places before the holder, the oracle is the property; (g) order-sensitive, not lexically sorted constraint lists "
+                "(`max=2 dive min=3`, `omitempty gte=10`, ...) on scalars and lists bound through ${} (configured value, default) and "
+                "#{} (stream ordered), values chosen so that the verdict of the written order differs from that of the sorted order in "
+                "about half of them. About 2 in 5 of all cases (3 in 5 of stream ordered) run under a logger that really formats every "
+                "debug / trace message of the container (hx.FmtLogger, output discarded): observations and oracles are the same "
+                "either way. non-trivial = (a) with at least one placeholder inside the expression, or a case with a validate "
                 "argument whose binding stage was reached; distinct = distinct (configuration, tag, field type)",
         "samples": samples,
         "traces_validated_against_impl": len(cases),
         "input_distribution": {"streams": streams, "outcomes": outcomes, "multipass_placeholders": mp,
                                "struct_valued_validation_targets": vs,
                                "components_with_several_validated_properties": multi_stats,
-                               "validated_fields_on_postprocessor_components": holder_stats},
+                               "validated_fields_on_postprocessor_components": holder_stats,
+                               "order_sensitive_constraint_lists": ord_stats,
+                               "formatting_logger": loud_stats},
         "nontrivial_cases": cnt["nt"],
         "validate_failures_observed": cnt["vf"],
         "cases_outside_modelled_fragment": cnt["outside"],
